@@ -541,6 +541,10 @@ class MatrixGaussianError(GaussianErrorBase):
             raise ValueError("Error matrix must be two-dimensional but received " f"array with {err_matrix.ndim} dimensions.")
         if err_val is not None and err_val.ndim > 1:
             raise ValueError("Error array must be scalar or one-dimensional but received " f"array with {err_val.ndim} dimensions.")
+        if err_val is not None and np.any(err_val < 0):
+            raise ValueError("Error values must be >= 0. Received: %s" % err_val)
+        if err_val is None and np.any(np.diag(err_matrix) < 0):
+            raise ValueError("Diagonal of covariance matrix must be >= 0. Received: %s" % np.diag(err_matrix))
         self._is_relative = relative
         self.reference = reference
         self._fit_indices = fit_indices
